@@ -5,7 +5,7 @@ from fractions import Fraction
 
 from harness.cli_run import run_cli, codes, fastq_bytes, reset_adapter_names
 
-SEQ_TEXTS = ["ACGTACGTTGCA", "AANNTTGGCC", "ACG{3}TTAC", "acgtn{2}acgt", "ACGUIIACGT"]
+SEQ_TEXTS = ["ACGTACGTTGCA", "AANNTTGGCC", "ACG{3}TTAC", "acgtn{2}acgt", "ACGUIIACGT", "ACGT{9}AC"]
 
 
 def val(v):
